@@ -30,7 +30,8 @@ DESIGN_S = (DESIGN_COMMON + "design_model_ref_row, design_ta_matches_model (the 
             "match_row_ta_mem; design_code_weight_order (the recorded weight-order defect stated for every size); every block is also compared "
             "entry for entry with the real solver output (driver op design). ")
 DESIGN_D = (DESIGN_COMMON + "design_model_fw_row / _bw_row, design_ta_fw_matches_model, design_ta_bw_matches_model, design_d_matches_model, "
-            "design_E_matches_model, design_E_first_row (for all sizes); every block of construct_submatrices is also compared entry for "
+            "design_E_matches_model, design_E_first_row (for all sizes); splice coefficients of EQ1-EQ3 of the matching-section builder "
+            "(mEq1_entry, mEq2_entry, mEq3_entry, design_eq1/2/3_coefficient; un-masked and re-read from the source each run); every block of construct_submatrices is also compared entry for "
             "entry with the real output (driver op design). Scatter: from_i of the solver and of the three fixed-parameter branches of the "
             "helper (Model/Scatter, gen = model by rfl each run); scatter_solver_head/_alpha/_ta, scatter_positions_are_layout, "
             "scatter_solver_mem_activeCols (a position is written iff the model counts the parameter among the unknowns), "
